@@ -109,6 +109,7 @@ Proof. exact FaultReachFacts.reachable_freachable. Qed.
 Theorem C15_invariants_after_crashes_and_faults : forall w, FaultReachFacts.FReachable w ->
   HeadFacts.NamesValid w /\
   ConfigCmdFacts.WfCfg w /\
+  ConfigCmdFacts.CfgGood w /\          (* both configuration files load *)
   refs_sorted w /\
   JournalFacts.JInv w /\
   ConnectedFacts.CInv w /\ SnapshotFacts.Inv w /\ TreeUniqueFacts.UInv w /\ ChainFacts.CInv w /\
